@@ -740,6 +740,26 @@ func (s *Server) handleRequest(req *dhcpv4.DHCPv4) (*dhcpv4.DHCPv4, error) {
 				delete(s.leasesByCircuitID, oldKey)
 			}
 			s.leasesByCircuitIDMu.Unlock()
+
+			// The fast path entries of the old circuit go with it: the end of
+			// the session only removes those of the circuit-ID the lease then
+			// carries, so they would keep answering for this binding.
+			if s.loader != nil {
+				if err := s.loader.RemoveCircuitIDMapping(existingLease.CircuitID); err != nil {
+					s.logger.Debug("Failed to remove previous circuit-id to MAC mapping",
+						zap.String("circuit_id", string(existingLease.CircuitID)),
+						zap.Error(err),
+					)
+				}
+				if s.loader.HasCircuitIDSubscriberSupport() {
+					if err := s.loader.RemoveCircuitIDSubscriber(existingLease.CircuitID); err != nil {
+						s.logger.Debug("Failed to remove previous circuit-id subscriber mapping",
+							zap.String("circuit_id", string(existingLease.CircuitID)),
+							zap.Error(err),
+						)
+					}
+				}
+			}
 		}
 	}
 
